@@ -764,7 +764,22 @@ def oracle_names(inp, ptx, res, prefix="SUPER_", single_hap=True, bpt_s=None):
                     errs.append(f"autosome named {s['name']!r}"); okn = False
                 else:
                     nums.append(int(m.group(1)))
-            if okn and single_hap:
+            first_hap_asm = False
+            if okn and not single_hap and bpt_s is not None:
+                # multi-haplotype map: the haplotype of the first painted, un-named Pretext scaffold that carries sequence decides
+                need = 1 + math.floor(Fraction(bpt_s))
+                hap_case, first_hap = {}, None
+                for ps in ptx:
+                    tags = {t for f in ps["rows"] if f["t"] == "F" for t in f["tags"]}
+                    hs = [t for t in tags if t not in KNOWN and not is_chr_tag(t)]
+                    for h in hs:
+                        hap_case.setdefault(h.lower(), h)
+                    if first_hap is None and "Painted" in tags and not any(is_chr_tag(t) for t in tags) and "Primary" not in tags:
+                        main_pieces = [f for f in ps["rows"] if f["t"] == "F" and not any(x in f["tags"] for x in ("FalseDuplicate", "Haplotig", "Contaminant", "Unloc"))]
+                        if any(contig_overlap(inp, f) >= 3 * need for f in main_pieces) and len(hs) == 1:
+                            first_hap = hap_case[hs[0].lower()]
+                first_hap_asm = first_hap is not None and a["key"] == first_hap and all(re.fullmatch(re.escape(prefix) + r"\d+", s["name"]) for s in mains)
+            if okn and (single_hap or first_hap_asm):
                 if nums != list(range(1, len(nums) + 1)):
                     errs.append(f"autosome numbers not 1..n in order: {nums}")
                 else:
@@ -813,6 +828,25 @@ def make_case(rng, kind, **kw):
     """kinds: script | perturbed | baits | tagged | tagged2 | null | nullp | hapnames"""
     bpt = kw.get("bpt") or rng.choice(BPTS)
     revp = kw.get("revp", rng.choice([0.0, 0.25, 0.35]))
+    if kind == "twohap":
+        # homologous pairs: Pretext scaffolds alternate between two haplotypes; the first one seen need not be the
+        # alphabetically first; chromosome sizes are independent between the haplotypes
+        haps = rng.choice([["Hap2", "Hap1"], ["Hap1", "Hap2"], ["hapB", "hapA"], ["Mat", "Pat"], ["Pat", "Mat"]])
+        ng = rng.randint(2, 4)
+        inp, ptx, oid = [], [], 0
+        beta = Fraction(bpt)
+        unit = max(40, math.ceil(beta) * 8)
+        for g in range(ng):
+            for h in haps:
+                n = len(inp) + 1
+                ln = unit * rng.randint(1, 9) + rng.randint(0, 5)
+                rows = [conv.jfrag(oid, f"c{oid+1}", 1, ln, rng.choice([1, -1]))]; oid += 1
+                if rng.random() < 0.4:
+                    rows += [conv.jgap(200), conv.jfrag(oid, f"c{oid+1}", 1, unit * rng.randint(1, 3), 1)]; oid += 1
+                inp.append(conv.jscaffold(f"s{n}", rows))
+                L = slen(rows); T = math.floor(L / beta)
+                ptx.append(conv.jscaffold(f"Scaffold_{n}", [conv.jfrag(0, f"s{n}", 1, math.floor(T * beta), rng.choice([1, -1]), ["Painted", h])]))
+        return {"kind": "tagged2", "input": inp, "ptx": ptx, "bpt": bpt}
     if kind in ("null", "nullp"):
         inp = rand_input(rng, revp=revp, hap_names=kw.get("hap_names", False))
         # precondition of C08: last contig of each scaffold at least one texel long → enlarge it if needed
